@@ -62,6 +62,16 @@ func (p *Path) goValue(fr *frame, it iface, verb byte) (gv interface{}, sym valu
 	switch v := it.v.(type) {
 	case *Term:
 		if !v.IsConst() {
+			// symbolic integers under %v / %d: exact decimal rendering
+			if bb, ok := t.Underlying().(*types.Basic); ok && bb.Info()&types.IsInteger != 0 && (verb == 'v' || verb == 'd') {
+				return nil, p.formatIntSym(v, bb.Info()&types.IsUnsigned == 0), true
+			}
+			if bb, ok := t.Underlying().(*types.Basic); ok && bb.Kind() == types.Bool && (verb == 'v' || verb == 't') {
+				if p.decide(v, "fmt bool") {
+					return true, nil, true
+				}
+				return false, nil, true
+			}
 			return fmtOpaque{"?"}, nil, false
 		}
 		b, _ := t.Underlying().(*types.Basic)
@@ -242,7 +252,7 @@ func (p *Path) sprintf(fr *frame, format string, args []value) *fmtResult {
 				res.taint = ss.taint
 				continue
 			}
-			if spec == "%s" || spec == "%v" {
+			if spec == "%s" || spec == "%v" || spec == "%d" {
 				res.parts = append(res.parts, sym)
 			} else if spec == "%q" {
 				res.parts = append(res.parts, "\"", sym, "\"")
